@@ -178,6 +178,15 @@ def run_case(case, ctx):
     viols += _check_event_ts(e, want_us, "init")
     if not isinstance(e.duration, timedelta) or td_us(e.duration) != dur_us:
         viols.append(("duration-not-exact", f"given={dur!r} ({case['durk']}) want_us={dur_us} got={e.duration!r}"))
+    if case.get("zone") and rep == "dt":
+        # the same clock reading the other time round: in the repeated hour at the end of daylight saving time two instants
+        # an hour apart read the same on the wall clock and differ only in `fold` (two such datetimes even compare equal)
+        other = dt.replace(fold=1 - dt.fold)
+        if other.utcoffset() != dt.utcoffset():
+            other_us = dt_us(other.astimezone(timezone.utc))
+            viols += _check_event_ts(Event(timestamp=other, duration=0), _expected_us(other_us, rep), "same-clock-reading-other-fold")
+            viols += _check_event_ts(Event(timestamp=given, duration=0), want_us, "same-clock-reading-first-fold-again")
+            ctx.count("clock_readings_built_for_both_folds")
     # the setter path
     e2 = Event(timestamp=mk_dt(0), duration=0)
     e2.timestamp = given
